@@ -26,6 +26,16 @@ fragment = flowing out of it, after the include = must be rejected); the oracle 
 inlined text (with the %define lines left where they were).  Full product on the family
 of all short texts (spell_seeds()), one spelling per layout in rotation on every other
 seed.  See vz/harness/inclspell.py, build_spelled(), check_spell_seed().
+
+Wave 5, three more axes (each with the same oracle, the inlined text):
+Naming axis - under which name a resource is known: the outer file is named to loadConfig by URL (file:///,
+file:/, with a dot segment), by a path with a dot segment, relatively to the working directory, through a
+symbolic link to the file or to its directory; fragments are stored as symbolic links.  References count from
+the NAME, not from where the bytes live.  See TOPS, top_arg(), build(), check_seed(mode="named").
+Import axis - '%import' lines in the line alphabet: the section types known to the load flow into and out of
+fragments in reading order like definitions do.  See import_seeds().
+Character axis - what a line is: every control / separator / non-ASCII character inside a value, comment,
+definition or section name stays inside its line when the line moves into a resource.  See CHARS, char_texts().
 """
 import io
 import itertools
@@ -90,33 +100,103 @@ class Scratch:
         os.makedirs(os.path.join(self.maindir, "sub dir"))
         os.makedirs(os.path.join(self.base, "p1", "p2", "sub dir"))
         os.makedirs(os.path.join(self.base, "p1", "sub dir"))
+        # naming axis: where the real file lives when the main file is named through a symbolic link to
+        # the file (linktarget), the real directory behind a symbolic link to the main directory (lnkdir ->
+        # dirtarget), where the real file of a fragment lives that is stored as a symbolic link (fragtarget)
+        self.linktarget = os.path.join(self.base, "e1", "e2", "e3")
+        self.dirtarget = os.path.join(self.base, "d1", "d2", "d3")
+        self.fragtarget = os.path.join(self.base, "x1", "x2", "x3")
+        for d in (self.linktarget, self.dirtarget, self.fragtarget):
+            os.makedirs(os.path.join(d, "sub dir"))
+        os.makedirs(os.path.join(self.base, "l1", "l2", "sub dir"))
+        self.lnkdir = os.path.join(self.base, "l1", "l2", "lnk")
+        os.symlink(self.dirtarget, self.lnkdir)
         self.n = 0
         self.ns = 0          # folded structures built so far in this shard (rotates quick-tier choices)
         self.nsp = 0         # spelled references drawn so far in this shard (rotates the spelling)
         self.nsite = 0       # ... the define site
         self.npp = 0         # ... the placement pair / shape of spelled pair layouts (quick tier)
+        self.ntop = 0        # named layouts drawn so far in this shard (rotates the naming of the outer resource)
+        self.ntp = 0         # ... the placement pair of named pair layouts (quick tier)
 
     def write(self, d, name, lines):
         os.makedirs(d, exist_ok=True)
         p = os.path.join(d, name)
-        with open(p, "w") as f:
+        # the bytes of a resource are the UTF-8 encoding of its lines, each ended by a single LF
+        with open(p, "w", encoding="utf-8", newline="") as f:
             f.write("\n".join(lines) + ("\n" if lines else ""))
+        return p
+
+    def link(self, d, name, target, relative):
+        """d/name becomes a symbolic link to the file `target`."""
+        os.makedirs(d, exist_ok=True)
+        p = os.path.join(d, name)
+        os.symlink(os.path.relpath(target, d) if relative else target, p)
         return p
 
     def close(self):
         shutil.rmtree(self.base, ignore_errors=True)
 
 
-def build(scr, lines, cuts, places):
+# ---------------------------------------------------------------------------
+# naming axis: how the OUTER resource is named to ZConfig.loadConfig, and resources stored under an alias.
+# "The URL of the including resource" is the URL under which that resource was named / referred to; a
+# relative reference is resolved against it lexically (RFC 3986), whatever the file system does behind it.
+#   abs       absolute path (what every layout above uses)
+#   url       file:///<quoted path>            url1  file:/<quoted path>
+#   urldot    file:///.../sub%20dir/../main.conf   (a URL with dot segments; resolution removes them)
+#   dotseg    <dir>/sub dir/../main.conf       (a path with dot segments)
+#   rel       <last directory>/main.conf with the working directory = the directory above
+#   name      main.conf with the working directory = its directory
+#   linkfile  the named path is a (relative) symbolic link to the real file, which lives in another
+#             directory (sites-enabled style): fragments are beside the LINK
+#   linkdir   the directory of the named path is a symbolic link to the real directory: a fragment
+#             in the "parent" directory is in the parent of the LINK
+# alias = indices of fragments that are stored as an (absolute) symbolic link at their place, the real file
+# living in another directory; their own relative references count from the place of the link.
+TOPS = ("url", "url1", "urldot", "dotseg", "rel", "name", "linkfile", "linkdir")
+SINGLE_ALIASES = ((), (0,))
+NESTED_ALIASES = ((), (0,), (0, 1))
+TOP_COMBOS_1 = [(t, a) for t in ("abs",) + TOPS for a in SINGLE_ALIASES if (t, a) != ("abs", ())]
+TOP_COMBOS_N = [(t, a) for t in ("abs",) + TOPS for a in NESTED_ALIASES if (t, a) != ("abs", ())]
+DECOY = ["# decoy"]
+PLACE_FS = {"same": "", "sub": "sub dir", "parent": ".."}
+
+
+def top_arg(mode, path):
+    """-> (what is passed to loadConfig, working directory or None) for the main file stored (or linked) at `path`."""
+    d, n = os.path.split(path)
+    if mode in ("abs", "linkfile", "linkdir"):
+        return path, None
+    if mode == "url":
+        return "file://" + SP.quote(path), None
+    if mode == "url1":
+        return "file:" + SP.quote(path), None
+    if mode == "urldot":
+        return "file://" + SP.quote(d) + "/sub%20dir/../" + SP.quote(n), None
+    if mode == "dotseg":
+        return os.path.join(d, "sub dir", "..", n), None
+    if mode == "rel":
+        return os.path.basename(d) + "/" + n, os.path.dirname(d)
+    if mode == "name":
+        return n, d
+    raise ValueError(mode)
+
+
+def build(scr, lines, cuts, places, top="abs", alias=(), decoy=None):
     """Write the files for a cut set; cuts = list of (i, j, parent_index|None)
-    with ranges relative to the ORIGINAL line numbering.  Returns main path."""
+    with ranges relative to the ORIGINAL line numbering.  Returns main path (the path under which the main
+    file is to be named).  top / alias: see the naming axis above.  decoy = lines of the files written where
+    a reference would lead if it were resolved against the REAL location of an aliased includer (None: no
+    such files, the wrong resolution finds nothing)."""
     scr.n += 1
     # children of each node (None = main), sorted by start
     kids = {}
     for idx, (i, j, par) in enumerate(cuts):
         kids.setdefault(par, []).append(idx)
+    refs = []         # (named path of the includer, directory part of the reference as a path, file name)
 
-    def emit(node, lo, hi, d):
+    def emit(node, lo, hi, d, selfpath):
         out = []
         pos = lo
         for idx in sorted(kids.get(node, []), key=lambda k: cuts[k][0]):
@@ -124,15 +204,31 @@ def build(scr, lines, cuts, places):
             out += lines[pos:i]
             fd, rel = place_dir(d, places[idx])
             name = "f%d_%d.conf" % (scr.n, idx)
-            sub = emit(idx, i, j, fd)
-            scr.write(fd, name, sub)
+            sub = emit(idx, i, j, fd, os.path.join(fd, name))
+            if idx in alias:
+                scr.link(fd, name, scr.write(scr.fragtarget, name, sub), False)
+            else:
+                scr.write(fd, name, sub)
+            refs.append((selfpath, PLACE_FS[places[idx]], name))
             out.append("  %include " + rel + name)
             pos = j
         out += lines[pos:hi]
         return out
 
-    main = emit(None, 0, len(lines), scr.maindir)
-    return scr.write(scr.maindir, "main%d.conf" % scr.n, main)
+    maindir = scr.lnkdir if top == "linkdir" else scr.maindir
+    mainname = "main%d.conf" % scr.n
+    mainpath = os.path.join(maindir, mainname)
+    main = emit(None, 0, len(lines), maindir, mainpath)
+    if top == "linkfile":
+        scr.link(maindir, mainname, scr.write(scr.linktarget, mainname, main), True)
+    else:
+        scr.write(maindir, mainname, main)
+    if decoy is not None:
+        for inc, rd, name in refs:
+            cand = os.path.normpath(os.path.join(os.path.dirname(os.path.realpath(inc)), rd, name))
+            if not os.path.lexists(cand):
+                scr.write(os.path.dirname(cand), name, decoy)
+    return mainpath
 
 
 # ---------------------------------------------------------------------------
@@ -438,12 +534,15 @@ def repeat_seeds(tier):
 LAST_REJECTION = [None]      # message of the most recent rejection (shown by replay only)
 
 
-def outcome_file(sch, path, env=None):
+def outcome_file(sch, path, env=None, cwd=None):
     import ZConfig
     saved = {k: os.environ.get(k) for k in env} if env else {}
+    back = os.getcwd() if cwd else None
     try:
         if env:
             os.environ.update(env)
+        if cwd:
+            os.chdir(cwd)
         cfg, _ = ZConfig.loadConfig(sch, path)
         return ("tree", H.tree(cfg))
     except ZConfig.ConfigurationError as e:
@@ -452,6 +551,8 @@ def outcome_file(sch, path, env=None):
     except Exception as e:
         return ("internal", core.exc_desc(e))
     finally:
+        if back:
+            os.chdir(back)
         for k, v in saved.items():
             if v is None:
                 os.environ.pop(k, None)
@@ -607,98 +708,184 @@ def check_spell_seed(scr, sch, lines, acc, mid, tier):
                     go(cuts, pls, [mkspec("rel", "lit", "homonym"), mkspec("rel", v, "homonym")], kind)
 
 
-def check_seed(scr, sch, lines, acc, mid, tier, cutsets=True):
+def check_seed(scr, sch, lines, acc, mid, tier, cutsets=True, mode="all", fam=None):
+    """mode: "all" = folds, every cut set, one spelled and one named variant per layout in rotation;
+    "lean" = every cut set of one or two ranges only; "named" = the full product of the naming axis on every cut set (nothing else).
+    fam = None or (tags, note): tags are added to the signature of a violation, note(cuts) -> names of
+    coverage counters that are bumped when the layout is expected to give a value tree."""
     text = "\n".join(lines) + "\n"
     base = outcome_text(sch, text)
     acc.ev()
     if base[0] == "internal":
         acc.extra["seed_internal_errors(C07's)"] += 1
         return
-    acc.cls("seed-" + base[0])
-    acc.states += 1
+    if mode != "named":
+        acc.cls("seed-" + base[0])
+        acc.states += 1
+    else:
+        acc.cls("named-seed-" + base[0])
     prof = depth_profile(lines)
     has_define = any(classify(l) == "define" for l in lines)
     bal = [(i, j) for (i, j) in ranges(lines) if balanced(lines, i, j)]
     unbal = [(i, j) for (i, j) in ranges(lines) if not balanced(lines, i, j)]
+    famtags, famnote = fam if fam else ({}, None)
+    x = acc.extra
 
-    def run_case(cuts, places, expect, kind):
-        path = build(scr, lines, cuts, places)
-        got = outcome_file(sch, path)
+    def run_case(cuts, places, expect, kind, top="abs", alias=()):
+        named = top != "abs" or bool(alias)
+        case = {"member": mid, "text": text, "cuts": [list(c) for c in cuts], "places": list(places)}
+        if named:
+            case.update(top=top, alias=list(alias))
+        acc.current = case
+        # a wrongly resolved reference finds nothing (accepted seeds: the load would be rejected) or a
+        # harmless decoy (rejected seeds: the load might be accepted)
+        path = build(scr, lines, cuts, places, top, alias, DECOY if named and base[0] != "tree" else None)
+        arg, cwd = top_arg(top, path)
+        got = outcome_file(sch, arg, None, cwd)
         acc.ev()
         acc.transitions += 1
-        nontriv = any(prof[i] > 0 for i, j, p in cuts) or any(p is not None for i, j, p in cuts) or has_define
+        nontriv = any(prof[i] > 0 for i, j, p in cuts) or any(p is not None for i, j, p in cuts) or has_define \
+            or named or fam is not None
         if nontriv:
             acc.nt()
-        case = {"member": mid, "text": text, "cuts": [list(c) for c in cuts], "places": list(places)}
         acc.sample(lambda: dict(case, kind=kind))
         acc.cls("%s:%s" % (kind, got[0]))
+        # coverage counters by EXPECTED outcome (independent of what the implementation did)
+        if named:
+            x["expected named top=%s:%s" % (top, expect[0])] += 1
+            x["expected named alias=%s:%s" % ("+".join(
+                "outer" if cuts[a][2] is None and any(c[2] == a for c in cuts) else
+                "inner" if cuts[a][2] is not None else "leaf" for a in alias) or "-", expect[0])] += 1
+            if expect[0] == "tree":
+                for idx in range(len(cuts)):
+                    inc = cuts[idx][2]
+                    if (inc is None and top in ("linkfile", "linkdir")) or inc in alias:
+                        x["named tree: place=%s of a fragment whose includer is reached through a link" % places[idx]] += 1
+        if famnote and expect[0] == "tree":
+            for k in famnote(cuts):
+                x[k] += 1
         if got[0] == "internal":
             acc.violation("internal-error", case, got[1], expect[0],
-                          tags={"kind": "internal-error", "exc": got[1]["class"], "where": got[1]["where"]})
+                          tags=dict(famtags, kind="internal-error", exc=got[1]["class"], where=got[1]["where"]))
         elif got != expect:
-            acc.violation("include-differs-from-inlined-text" if kind != "unbalanced" else
-                          "unbalanced-fragment-accepted", case, [got[0], repr(got[1:])[:300]],
-                          [expect[0], repr(expect[1:])[:300]],
-                          tags={"kind": kind, "places": list(places), "nested": any(p is not None for _, _, p in cuts),
-                                "define": has_define, "seed": base[0]})
+            tags = dict(famtags, kind=kind, places=list(places), nested=any(p is not None for _, _, p in cuts),
+                        define=has_define, seed=base[0])
+            if named:
+                tags.update(top=top, alias=list(alias))
+            acc.violation("unbalanced-fragment-accepted" if kind == "unbalanced" else
+                          "named-layout-differs-from-inlined-text" if named else
+                          "include-differs-from-inlined-text", case,
+                          [got[0], repr(got[1:])[:300],
+                           (LAST_REJECTION[0] or "").replace(scr.base, "<tmp>") if got[0] == "rejected" else ""],
+                          [expect[0], repr(expect[1:])[:300]], tags=tags)
 
-    check_folds(scr, sch, lines, acc, mid, tier, base, bal, has_define)
+    full = tier != "quick"
+    pair_places = list(itertools.product(PLACES, repeat=2)) if full else \
+        [("same", "sub"), ("sub", "parent"), ("parent", "same"), ("sub", "sub")]
+    # an outer fragment (in another directory) that itself includes two fragments one after the other:
+    # the second inner include must still resolve against the OUTER fragment, not against whatever was
+    # parsed last
+    shapes = [("sub", "same", "same"), ("parent", "sub", "same"), ("sub", "sub", "parent")]
+    if full:
+        shapes += [("same", "sub", "sub"), ("parent", "parent", "same"), ("sub", "parent", "sub")]
+
+    def pairs():
+        for a in range(len(bal)):
+            for b in range(len(bal)):
+                (i, j), (k, l) = bal[a], bal[b]
+                if j <= k:                                   # disjoint, a before b
+                    yield "disjoint", [(i, j, None), (k, l, None)]
+                elif i <= k and l <= j and (i, j) != (k, l):  # b nested in a
+                    yield "nested", [(i, j, None), (k, l, 0)]
+
+    def triples():
+        for (i, j) in bal:
+            inner = [(k, l) for (k, l) in bal if i <= k and l <= j and (k, l) != (i, j)]
+            for (k, l), (m, n) in itertools.combinations(inner, 2):
+                if l <= m:
+                    yield [(i, j, None), (k, l, 0), (m, n, 0)]
+
+    if mode == "named":
+        # full product of the naming axis
+        for (i, j) in bal:
+            for pl in PLACES:
+                for t, al in TOP_COMBOS_1:
+                    run_case([(i, j, None)], (pl,), base, "named-single", t, al)
+        for rel, cuts in pairs():
+            for pls in pair_places:
+                for t, al in (TOP_COMBOS_N if rel == "nested" else TOP_COMBOS_1 + [("abs", (0, 1))]):
+                    run_case(cuts, pls, base, "named-pair-" + rel, t, al)
+        for cuts in triples():
+            for pls in shapes:
+                for t, al in (TOP_COMBOS_N if full else TOP_COMBOS_1):
+                    run_case(cuts, pls, base, "named-outer-with-two-inner", t, al)
+        return
+
+    rot = mode == "all"
+    if rot:
+        check_folds(scr, sch, lines, acc, mid, tier, base, bal, has_define)
     if not cutsets:
         return
     def spelled(cuts, places, specs, kind):
         run_spelled(scr, sch, lines, acc, mid, base, cuts, places, specs, kind)
 
+    def named(cuts, places, kind, combos):
+        # naming axis, one (naming of the outer resource, aliased fragments) per layout in rotation
+        t, al = combos[scr.ntop % len(combos)]
+        scr.ntop += 1
+        run_case(cuts, places, base, kind, t, al)
+
     for (i, j) in bal:
         for pl in PLACES:
             run_case([(i, j, None)], (pl,), base, "single")
-            # spelling axis, one spelling per layout in rotation
-            spelled([(i, j, None)], (pl,), [rot_spec(scr, False, ("here",))], "spelled-single")
+            if rot:
+                # spelling axis, one spelling per layout in rotation
+                spelled([(i, j, None)], (pl,), [rot_spec(scr, False, ("here",))], "spelled-single")
+                named([(i, j, None)], (pl,), "named-single", TOP_COMBOS_1)
         scr.nsp += 2     # keeps the rotation from running in step with the 3 placements
     for (i, j) in unbal:
         run_case([(i, j, None)], ("same",), ("rejected",), "unbalanced")
-    pair_places = list(itertools.product(PLACES, repeat=2)) if tier != "quick" else \
-        [("same", "sub"), ("sub", "parent"), ("parent", "same"), ("sub", "sub")]
     def spelled_pair_places():
         # quick: one of the placement pairs per pair of ranges, in rotation; thorough: all
-        if tier != "quick":
+        if full:
             return pair_places
         scr.npp += 1
         return [pair_places[scr.npp % len(pair_places)]]
 
-    for a in range(len(bal)):
-        for b in range(len(bal)):
-            (i, j), (k, l) = bal[a], bal[b]
-            if j <= k:                                   # disjoint, a before b
-                for pls in pair_places:
-                    run_case([(i, j, None), (k, l, None)], pls, base, "pair-disjoint")
-                for pls in spelled_pair_places():
-                    spelled([(i, j, None), (k, l, None)], pls,
-                            rot_specs(scr, (("here", "top"), ("here", "prev", "top"))), "spelled-pair-disjoint")
-            elif i <= k and l <= j and (i, j) != (k, l):  # b nested in a
-                for pls in pair_places:
-                    run_case([(i, j, None), (k, l, 0)], pls, base, "pair-nested")
-                for pls in spelled_pair_places():
-                    spelled([(i, j, None), (k, l, 0)], pls,
-                            rot_specs(scr, (("here", "top"), ("here", "top"))), "spelled-pair-nested")
-    # an outer fragment (in another directory) that itself includes two fragments one after the other:
-    # the second inner include must still resolve against the OUTER fragment, not against whatever was
-    # parsed last
-    shapes = [("sub", "same", "same"), ("parent", "sub", "same"), ("sub", "sub", "parent")]
-    if tier != "quick":
-        shapes += [("same", "sub", "sub"), ("parent", "parent", "same"), ("sub", "parent", "sub")]
-    for (i, j) in bal:
-        inner = [(k, l) for (k, l) in bal if i <= k and l <= j and (k, l) != (i, j)]
-        for (k, l), (m, n) in itertools.combinations(inner, 2):
-            if l <= m:
-                for pls in shapes:
-                    run_case([(i, j, None), (k, l, 0), (m, n, 0)], pls, base, "outer-with-two-inner")
-                if tier == "quick":
-                    scr.npp += 1
-                for pls in (shapes if tier != "quick" else [shapes[scr.npp % len(shapes)]]):
-                    spelled([(i, j, None), (k, l, 0), (m, n, 0)], pls,
-                            rot_specs(scr, (("here", "top"), ("here", "top"), ("here", "prev", "top"))),
-                            "spelled-outer-with-two-inner")
-    if tier != "quick" and len(lines) <= 6:
+    def named_pair_places():
+        if full:
+            return pair_places
+        scr.ntp += 1
+        return [pair_places[scr.ntp % len(pair_places)]]
+
+    for rel, cuts in pairs():
+        for pls in pair_places:
+            run_case(cuts, pls, base, "pair-" + rel)
+        if not rot:
+            continue
+        if rel == "disjoint":
+            for pls in spelled_pair_places():
+                spelled(cuts, pls, rot_specs(scr, (("here", "top"), ("here", "prev", "top"))), "spelled-pair-disjoint")
+            for pls in named_pair_places():
+                named(cuts, pls, "named-pair-disjoint", TOP_COMBOS_1)
+        else:
+            for pls in spelled_pair_places():
+                spelled(cuts, pls, rot_specs(scr, (("here", "top"), ("here", "top"))), "spelled-pair-nested")
+            for pls in named_pair_places():
+                named(cuts, pls, "named-pair-nested", TOP_COMBOS_N)
+    if not rot:
+        return
+    for cuts in triples():
+        for pls in shapes:
+            run_case(cuts, pls, base, "outer-with-two-inner")
+        if not full:
+            scr.npp += 1
+        for pls in (shapes if full else [shapes[scr.npp % len(shapes)]]):
+            spelled(cuts, pls, rot_specs(scr, (("here", "top"), ("here", "top"), ("here", "prev", "top"))),
+                    "spelled-outer-with-two-inner")
+        for pls in (shapes if full else []):        # quick: on the spell seeds only (full product there)
+            named(cuts, pls, "named-outer-with-two-inner", TOP_COMBOS_N)
+    if full and len(lines) <= 6:
         for a, b, c in itertools.permutations(range(len(bal)), 3):
             (i, j), (k, l), (m, n) = bal[a], bal[b], bal[c]
             if i <= k and l <= j and (i, j) != (k, l) and k <= m and n <= l and (k, l) != (m, n):
@@ -818,9 +1005,150 @@ def define_seeds():
     return out
 
 
+# ---------------------------------------------------------------------------
+# import axis: '%import' lines in the line alphabet.  A '%import' changes the state of the LOAD (the section
+# types known from that line on), not of a section or of the definitions, so it is the third kind of thing that
+# has to flow into and out of a fragment in reading order.
+
+IMPORT_PKGS = ("vzc06pa", "vzc06pb")
+IMPORT_COMPONENTS = {
+    "vzc06pa": '<component>\n  <sectiontype name="pa1" implements="a"><multikey name="k"/></sectiontype>\n</component>\n',
+    "vzc06pb": '<component>\n  <sectiontype name="pb1" implements="a"><key name="pk" default="d"/></sectiontype>\n'
+               '</component>\n',
+}
+IMPORT_SCHEMA = """<schema>
+  <abstracttype name="a"/>
+  <sectiontype name="t"><multikey name="k"/><multisection type="a" name="*" attribute="items"/></sectiontype>
+  <multikey name="k"/>
+  <multisection type="a" name="*" attribute="items"/>
+  <multisection type="t" name="*" attribute="ts"/>
+</schema>
+"""
+IMPORT_ALPHABET = ("%import vzc06pa", "%import vzc06pb", "<pa1>", "</pa1>", "<pb1/>", "<t>", "</t>", "k a")
+
+
+class ImportPackages:
+    """The two component packages of the import axis on a scratch sys.path entry (fixed names, so that a
+    replay sees the same texts)."""
+
+    def __init__(self):
+        import sys
+        self.dir = tempfile.mkdtemp(prefix="vz-c06-pkgs-", dir="/dev/shm" if os.path.isdir("/dev/shm") else None)
+        for name, xml in IMPORT_COMPONENTS.items():
+            d = os.path.join(self.dir, name)
+            os.makedirs(d)
+            with open(os.path.join(d, "__init__.py"), "w") as f:
+                f.write("# generated\n")
+            with open(os.path.join(d, "component.xml"), "w") as f:
+                f.write(xml)
+        self.purge()
+        sys.path.insert(0, self.dir)
+
+    @staticmethod
+    def purge():
+        import importlib
+        import sys
+        for k in [k for k in sys.modules if k.split(".")[0] in IMPORT_PKGS]:
+            del sys.modules[k]
+        importlib.invalidate_caches()
+
+    def close(self):
+        import sys
+        try:
+            sys.path.remove(self.dir)
+        except ValueError:
+            pass
+        self.purge()
+        shutil.rmtree(self.dir, ignore_errors=True)
+
+
+def import_seeds(tier):
+    """All texts of 2..N lines over IMPORT_ALPHABET that are balanced as a layout, hold an '%import' line and
+    a line that uses a section type of a component."""
+    N = 4 if tier == "quick" else 5
+    out = []
+    for n in range(2, N + 1):
+        for combo in itertools.product(IMPORT_ALPHABET, repeat=n):
+            if not any(c.startswith("%import") for c in combo) or not any(c.startswith("<p") for c in combo):
+                continue
+            if balanced(list(combo), 0, n):
+                out.append(list(combo))
+    return out
+
+
+def import_fam(lines):
+    imp = [n for n, l in enumerate(lines) if l.startswith("%import")]
+    use = [n for n, l in enumerate(lines) if l.startswith("<p")]
+
+    def note(cuts):
+        out = []
+        first = min(c[0] for c in cuts)
+        if any(n < first for n in imp) and any(n >= first for n in use):
+            out.append("import tree: %import before the first %include, component type used in or after the fragment")
+        if any(i <= n < j and u >= j for i, j, _ in cuts for n in imp for u in use):
+            out.append("import tree: %import inside a fragment, component type used after that fragment")
+        if any(p is not None and any(cuts[p][0] <= n < i for n in imp) and any(i <= u < j for u in use)
+               for i, j, p in cuts):
+            out.append("import tree: %import in an outer fragment, component type used in an inner fragment")
+        return out
+
+    return {"family": "import"}, note
+
+
+# ---------------------------------------------------------------------------
+# character axis: what a LINE is.  Lines end at LF (the parser reads with readline()); every other character
+# is an ordinary character inside a line - in the original text and in a resource alike.  One character c at a
+# time is put inside a key value, a comment, a %define value (and so into the value that refers to it) and a
+# section name, for every c of CHARS: all C0 controls but LF and CR, DEL, all C1 controls (NEL among them),
+# NBSP, SHY, a Latin-1 letter, and from beyond Latin-1: OGHAM SPACE MARK, ZERO WIDTH SPACE, LINE SEPARATOR,
+# PARAGRAPH SEPARATOR, IDEOGRAPHIC SPACE, ZERO WIDTH NO-BREAK SPACE (the byte order mark, here inside a line),
+# REPLACEMENT CHARACTER, a character outside the BMP.  (A bare CR is left out: file objects opened in text mode
+# translate it, so "the original text given as a file object" is not well defined for it.)
+
+CHARS = [c for c in range(0x00, 0x20) if c not in (0x0a, 0x0d)] + [0x7f] + list(range(0x80, 0xa0)) + \
+    [0xa0, 0xad, 0xe9, 0x1680, 0x200b, 0x2028, 0x2029, 0x3000, 0xfeff, 0xfffd, 0x1f600]
+# one per class, for the longer texts of the quick tier
+REP_CHARS = [0x0c, 0x85, 0xe9, 0x2028, 0x1f600]
+CHAR_ALPHABET = ("k a{c}b", "#c{c}d", "%define d e{c}f", "k $d", "<t n{c}m>", "<t>", "</t>")
+
+
+def char_texts(n):
+    """All texts of n lines over CHAR_ALPHABET (the character still a placeholder) that are balanced as a
+    layout and hold the character."""
+    out = []
+    for combo in itertools.product(CHAR_ALPHABET, repeat=n):
+        if any("{c}" in l for l in combo) and balanced(list(combo), 0, n):
+            out.append(combo)
+    return out
+
+
+def char_members(tier):
+    """-> list of (code point, line counts)"""
+    if tier == "quick":
+        return [(c, (1, 2) + ((3,) if c in REP_CHARS else ())) for c in CHARS]
+    return [(c, (1, 2, 3) + ((4,) if c in REP_CHARS else ())) for c in CHARS]
+
+
+def char_fam(c, lines):
+    ch = chr(c)
+    at = [n for n, l in enumerate(lines) if ch in l]
+    label = "U+%04X" % c
+
+    def note(cuts):
+        out = []
+        if any(i <= n < j for i, j, _ in cuts for n in at):
+            out.append("char tree: %s inside a fragment" % label)
+        else:
+            out.append("char tree: %s only in the including resource" % label)
+        return out
+
+    return {"family": "char", "char": label}, note
+
+
 def shard(member, acc):
     kind, tier = member[0], member[-1]
     scr = Scratch()
+    pk = None
     try:
         if kind == "corpus":
             _, name, S, root, cdepth, lean = member[:6]
@@ -845,6 +1173,26 @@ def shard(member, acc):
                     if nr > cap:
                         continue
                 check_seed(scr, sch, lines, acc, mid, tier)
+        elif kind == "import":
+            _, name, xml, seeds = member[:4]
+            pk = ImportPackages()
+            mid = {"name": name, "schema": xml, "packages": "import-axis"}
+            for lines in seeds:
+                # a schema object of its own for every seed: what an %import leaves behind on the schema
+                # object is C12's / C13's subject
+                # (seeds the inlined text of which is rejected: every cut set of one or two ranges, nothing else)
+                sch = H.load_schema(xml)
+                lean = outcome_text(sch, "\n".join(lines) + "\n")[0] != "tree"
+                check_seed(scr, sch, lines, acc, mid, tier, mode="lean" if lean else "all", fam=import_fam(lines))
+        elif kind == "char":
+            _, name, xml, c, counts = member[:5]
+            sch = H.load_schema(xml)
+            mid = {"name": name, "schema": xml}
+            for n in counts:
+                for combo in char_texts(n):
+                    lines = [l.replace("{c}", chr(c)) for l in combo]
+                    check_seed(scr, sch, lines, acc, mid, tier, mode="all" if n <= (1 if tier == "quick" else 2) else "lean",
+                               fam=char_fam(c, lines))
         else:
             _, name, xml, seeds = member[:4]
             sch = H.load_schema(xml)
@@ -852,10 +1200,14 @@ def shard(member, acc):
             for lines in seeds:
                 if kind == "spell":
                     check_spell_seed(scr, sch, lines, acc, mid, tier)
+                elif kind == "named":
+                    check_seed(scr, sch, lines, acc, mid, tier, mode="named")
                 else:
                     check_seed(scr, sch, lines, acc, mid, tier, cutsets=(kind != "repeat"))
     finally:
         scr.close()
+        if pk is not None:
+            pk.close()
     acc.traces = acc.transitions
     return acc
 
@@ -873,6 +1225,52 @@ def run(tier):
     sstep = 3 if tier == "quick" else 1
     for i in range(0, len(ss), sstep):
         mem.append(("spell", "spell-%d" % i, REPEAT_SCHEMA, ss[i:i + sstep], tier))
+    # wave 5: naming axis (full product on the spell seeds), import axis, character axis
+    for i in range(0, len(ss), sstep):
+        mem.append(("named", "named-%d" % i, REPEAT_SCHEMA, ss[i:i + sstep], tier))
+    ims = import_seeds(tier)
+    istep = 12
+    for i in range(0, len(ims), istep):
+        mem.append(("import", "import-%d" % i, IMPORT_SCHEMA, ims[i:i + istep], tier))
+    cms = char_members(tier)
+    for c, counts in cms:
+        mem.append(("char", "char-U+%04X" % c, REPEAT_SCHEMA, c, counts, tier))
+    quick = tier == "quick"
+    wave5 = (
+        "NAMING AXIS (under which name a resource is known; 'the URL of the including resource' is the URL it was "
+        "named / referred to by, references are resolved against it lexically): the outer file is named to "
+        "ZConfig.loadConfig as %r = file:/// URL, file:/ URL, URL with a dot segment, path with a dot segment, "
+        "relative path from the working directory above, bare file name in its own directory, a symbolic link to "
+        "the real file in another directory (fragments beside the LINK), a path through a symbolic link to the real "
+        "directory (the 'parent' placement is the parent of the LINK) - or by its absolute path; and a fragment is "
+        "stored at its place as a symbolic link to a real file elsewhere (single range: %r; nested pair, 0 = outer, "
+        "1 = inner: %r).  Accepted seeds: nothing exists where a reference resolved against the real location would "
+        "lead; rejected seeds: a harmless decoy file is there.  (a) FULL PRODUCT on the %d spell seeds: every "
+        "balanced range x 3 placements x %d (naming, alias) combinations; every disjoint / nested pair x %s "
+        "placement pairs x %d / %d combinations; every outer-with-two-inner triple x %d shapes x %d combinations.  "
+        "(b) ROTATION on every other seed handled in full (corpus, %%define, import, short character seeds): every "
+        "single-range layout and every pair of ranges (%s)%s once more with a (naming, alias) combination drawn in "
+        "turn.  "
+        "IMPORT AXIS (a third thing that flows in reading order, besides definitions and the open section: the "
+        "section types known to the load): %d import seeds = all layout-balanced texts of 2..%d lines over %r that "
+        "hold an %%import and a use of a component type (two generated component packages, each adding one "
+        "implementer of the abstract type of the schema; a schema object of its own per seed); accepted ones are "
+        "treated like every other seed (all cut sets, folds, spelled and named rotation), rejected ones with every "
+        "cut set of one or two ranges.  "
+        "CHARACTER AXIS (what a line is: lines end at LF only, in the text and in a resource alike): for each of %d "
+        "characters c (all C0 controls but LF / CR, DEL, all C1 controls, NBSP, SHY, U+00E9, U+1680, U+200B, U+2028, "
+        "U+2029, U+3000, U+FEFF, U+FFFD, U+1F600; resources are UTF-8 files) all layout-balanced texts of %s lines "
+        "over %r that hold c - inside a key value, a comment, a %%define value referred to later, a section name - "
+        "(for %d class representatives also %d lines): %s.  "
+        % (list(TOPS), list(SINGLE_ALIASES), list(NESTED_ALIASES), len(ss), len(TOP_COMBOS_1),
+           "4" if quick else "9", len(TOP_COMBOS_1) + 1, len(TOP_COMBOS_N), 3 if quick else 6,
+           len(TOP_COMBOS_1) if quick else len(TOP_COMBOS_N),
+           "one placement pair each, in turn" if quick else "all placement pairs",
+           "" if quick else " and every outer-with-two-inner triple",
+           len(ims), 4 if quick else 5, list(IMPORT_ALPHABET),
+           len(CHARS), "1..2" if quick else "1..3", list(CHAR_ALPHABET), len(REP_CHARS), 3 if quick else 4,
+           "one-line texts like every other seed, longer ones with every cut set of one or two ranges" if quick else
+           "texts up to two lines like every other seed, longer ones with every cut set of one or two ranges"))
     run = core.Run(
         "C06", tier, "model_checking",
         rule="seeds = accepted and rejected corpus texts (3..%d lines, capped per schema) and %d %%define texts "
@@ -909,9 +1307,11 @@ def run(tier):
              "layout, every pair of ranges (%s) and every outer-with-two-inner triple (%s) is loaded once more "
              "with spellings drawn in turn from the %d / %d combinations (several fragments: all of them spelled, "
              "sites in turn).  "
+             "%s"
              "states = seeds, transitions = loads of include layouts.  Non-trivial = a range inside a section, a "
-             "nested cut, a seed with %%define, a folded layout (a resource read more than once in one load), or a "
-             "reference not written as a literal relative path."
+             "nested cut, a seed with %%define, a folded layout (a resource read more than once in one load), a "
+             "reference not written as a literal relative path, an outer resource not named by its plain absolute "
+             "path, a resource stored as a symbolic link, a seed of the import or the character family."
              % (7 if tier == "quick" else 9, len(ds), "4" if tier == "quick" else "9",
                 "" if tier == "quick" else ", triples for seeds <= 6 lines",
                 len(rs), 5 if tier == "quick" else 6, len(REPEAT_ALPHABET), list(REPEAT_ALPHABET),
@@ -930,19 +1330,32 @@ def run(tier):
                 [list(c) for c in OUTER_SPELLED],
                 "one placement pair each, in turn" if tier == "quick" else "all placement pairs",
                 "one shape each, in turn" if tier == "quick" else "all shapes",
-                len(SPELL_COMBOS), len(SPELL_COMBOS_M)),
+                len(SPELL_COMBOS), len(SPELL_COMBOS_M), wave5),
         bounds={"members": len(mem), "max_cuts": 2 if tier == "quick" else 3, "max_cuts_folded": 4,
                 "repeat_seeds": len(rs), "repeat_seed_max_lines": 5 if tier == "quick" else 6,
                 "fold_faults": list(FAULTS), "fold_dirs": list(DIRS),
                 "spell_seeds": len(ss), "spell_seed_max_lines": 3 if tier == "quick" else 4,
                 "spell_forms": list(SP.FORMS), "spell_vias": list(SP.VIAS),
                 "spell_namekinds": list(NAMEKINDS) + ["homonym"], "spell_sites": list(SITES),
-                "spell_combinations": len(SPELL_COMBOS), "spell_combinations_multi": len(SPELL_COMBOS_M)},
+                "spell_combinations": len(SPELL_COMBOS), "spell_combinations_multi": len(SPELL_COMBOS_M),
+                "naming_tops": ["abs"] + list(TOPS), "naming_aliases_single": [list(a) for a in SINGLE_ALIASES],
+                "naming_aliases_nested": [list(a) for a in NESTED_ALIASES],
+                "naming_combinations": [len(TOP_COMBOS_1), len(TOP_COMBOS_N)],
+                "import_seeds": len(ims), "import_seed_max_lines": 4 if quick else 5,
+                "import_alphabet": list(IMPORT_ALPHABET),
+                "characters": ["U+%04X" % c for c in CHARS], "character_representatives": ["U+%04X" % c for c in REP_CHARS],
+                "character_alphabet": list(CHAR_ALPHABET),
+                "character_max_lines": [2, 3] if quick else [3, 4]},
         assumptions=["include arguments are URL-quoted references (a space is written %20; '$' stays literal); "
                      "absolute spellings contain the scratch directory under /dev/shm",
                      "the %define names inc<i> / nam<i> and the environment names VZC06_INC<i> used by the "
                      "spellings do not occur in any seed",
-                     "folded cuts have exactly identical lines (indentation included)"])
+                     "folded cuts have exactly identical lines (indentation included)",
+                     "the file system under /dev/shm supports symbolic links; the scratch directory itself is not "
+                     "reached through one",
+                     "a resource file holds the UTF-8 encoding of its lines, each ended by one LF; the inlined text is "
+                     "given to loadConfigFile as an io.StringIO (no newline translation)",
+                     "the package names vzc06pa / vzc06pb are free on sys.path"])
     core.pmap(shard, mem, run.acc, shard_budget=3000.0)
     a = run.acc
     run.require(a.classes.get("single:tree", 0) > 200 and a.classes.get("pair-nested:tree", 0) > 100,
@@ -988,7 +1401,51 @@ def run(tier):
     for k in ("spell-single", "spell-pair-disjoint", "spell-pair-nested", "spelled-single", "spelled-pair-disjoint",
               "spelled-pair-nested", "spelled-outer-with-two-inner"):
         run.require(x.get("expected %s:tree" % k, 0) > 1000, "spelling axis: few accepted layouts of kind %s" % k)
+    # naming axis: every way of naming the outer resource, every alias pattern and every placement behind a link
+    # was reached with a layout whose inlined text is accepted
+    for t in ("abs",) + TOPS:
+        run.require(x.get("expected named top=%s:tree" % t, 0) > (1000 if t != "abs" else 500),
+                    "naming axis: few accepted layouts with the outer resource named as %s" % t)
+        run.require(x.get("expected named top=%s:rejected" % t, 0) > 500,
+                    "naming axis: few rejected layouts (decoys present) with the outer resource named as %s" % t)
+    for al in ("-", "leaf", "outer", "outer+inner"):
+        run.require(x.get("expected named alias=%s:tree" % al, 0) > 1000,
+                    "naming axis: few accepted layouts with alias pattern %s" % al)
+    for pl in PLACES:
+        run.require(x.get("named tree: place=%s of a fragment whose includer is reached through a link" % pl, 0) > 1000,
+                    "naming axis: few accepted layouts with a %s-placed fragment of an includer reached through a link" % pl)
+    for k in ("named-single", "named-pair-disjoint", "named-pair-nested", "named-outer-with-two-inner"):
+        run.require(a.classes.get("%s:tree" % k, 0) > 1000, "naming axis: few accepted layouts of kind %s" % k)
+    # import axis
+    for k, n in (("%import before the first %include, component type used in or after the fragment", 2000),
+                 ("%import inside a fragment, component type used after that fragment", 1000),
+                 ("%import in an outer fragment, component type used in an inner fragment", 200)):
+        run.require(x.get("import tree: " + k, 0) > n, "import axis: few accepted layouts with " + k)
+    # character axis: every character, inside a fragment and outside, with an accepted inlined text
+    for c in CHARS:
+        for k, n in (("inside a fragment", 100), ("only in the including resource", 2)):
+            run.require(x.get("char tree: U+%04X %s" % (c, k), 0) > n,
+                        "character axis: few accepted layouts with U+%04X %s" % (c, k))
     return run
+
+
+def show(text):
+    """Printable form of a resource: every character outside printable ASCII (LF apart) escaped."""
+    return "".join(ch if ch == "\n" or " " <= ch <= "~" else ch.encode("unicode_escape").decode("ascii") for ch in text)
+
+
+def print_files(scr):
+    for dp, dn, fn in os.walk(scr.base):
+        for d in sorted(dn):
+            q = os.path.join(dp, d)
+            if os.path.islink(q):
+                print("--- %s -> %s (directory)" % (os.path.relpath(q, scr.base), os.readlink(q).replace(scr.base, "<tmp>")))
+        for f in sorted(fn):
+            q = os.path.join(dp, f)
+            if os.path.islink(q):
+                print("--- %s -> %s" % (os.path.relpath(q, scr.base), os.readlink(q).replace(scr.base, "<tmp>")))
+            else:
+                print("--- %s\n%s" % (os.path.relpath(q, scr.base), show(open(q, encoding="utf-8", newline="").read())), end="")
 
 
 def replay_fold(body):
@@ -1004,11 +1461,8 @@ def replay_fold(body):
             exp = outcome_text(sch, case["text"])
             ld = ZConfig.loader.ConfigLoader(sch)
             steps = fold_steps(scr, sch, ld, lines, cuts, tuple(case["classes"]), tuple(case["dirs"]),
-                               True, tuple(case.get("faults") or FAULTS))
-            for dp, dn, fn in os.walk(scr.base):
-                for f in sorted(fn):
-                    print("--- %s\n%s" % (os.path.relpath(os.path.join(dp, f), scr.base),
-                                          open(os.path.join(dp, f)).read()), end="")
+                               bool(case.get("history", True)), tuple(case.get("faults") or FAULTS))
+            print_files(scr)
             print("inlined text          :", exp[0], repr(exp[1:])[:300])
             for step, got, msg in steps:
                 want = ("rejected",) if step.startswith("fault:") else exp
@@ -1025,8 +1479,18 @@ def replay_fold(body):
 
 def replay(body):
     case = body["case"]
-    if case.get("fold"):
-        return replay_fold(body)
+    pk = ImportPackages() if case["member"].get("packages") else None
+    try:
+        if case.get("fold"):
+            return replay_fold(body)
+        return replay_layout(body)
+    finally:
+        if pk is not None:
+            pk.close()
+
+
+def replay_layout(body):
+    case = body["case"]
     rc = 0
     for _ in range(2):
         scr = Scratch()
@@ -1042,15 +1506,18 @@ def replay(body):
                     exp = ("rejected",)
                 if env:
                     print("environment:", env)
-                if got[0] == "rejected":
-                    print("rejection    :", (LAST_REJECTION[0] or "").replace(scr.base, "<tmp>"))
             else:
-                path = build(scr, lines, cuts, case["places"])
-                got = outcome_file(sch, path)
                 exp = outcome_text(sch, case["text"])
-            for dp, dn, fn in os.walk(scr.base):
-                for f in fn:
-                    print("--- %s\n%s" % (os.path.relpath(os.path.join(dp, f), scr.base), open(os.path.join(dp, f)).read()), end="")
+                top, alias = case.get("top", "abs"), tuple(case.get("alias", ()))
+                named = top != "abs" or bool(alias)
+                path = build(scr, lines, cuts, case["places"], top, alias, DECOY if named and exp[0] != "tree" else None)
+                arg, cwd = top_arg(top, path)
+                got = outcome_file(sch, arg, None, cwd)
+                print("loadConfig(schema, %r)%s" % (arg.replace(scr.base, "<tmp>"),
+                                                    " in the working directory " + cwd.replace(scr.base, "<tmp>") if cwd else ""))
+            if got[0] == "rejected":
+                print("rejection    :", show((LAST_REJECTION[0] or "").replace(scr.base, "<tmp>")))
+            print_files(scr)
             print("with includes:", got[0], repr(got[1:])[:300])
             print("inlined     :", exp[0], repr(exp[1:])[:300], "(expected %s)" % body["expected"][0])
             if got[0] != body["expected"][0] or (got[0] == "tree" and got != exp):
